@@ -12,17 +12,17 @@ use std::cell::RefCell;
 use std::io::{ErrorKind, Read, Write};
 use std::rc::Rc;
 
-pub const FIXTURES: [&str; 5] = ["rsa2048", "rsa3072", "rsa4096", "ecp256", "rsa2048b"];
+pub const FIXTURES: [&str; 6] = ["rsa2048", "rsa3072", "rsa4096", "ecp256", "rsa2048b", "ed25519ff"];
 /// fixtures whose certificate is in /verif/fixtures/trust.pem (SSL_CERT_FILE)
-pub const TRUSTED: [bool; 5] = [true, true, false, true, false];
+pub const TRUSTED: [bool; 6] = [true, true, false, true, false, false];
 
 pub fn fixtures_dir() -> String {
     std::env::var("VERIF_FIXTURES").unwrap_or_else(|_| "/verif/fixtures".to_string())
 }
 
 thread_local! {
-    static ACCEPTORS: RefCell<Vec<Option<TlsAcceptor>>> = RefCell::new(vec![None, None, None, None, None]);
-    static CERT_DER: RefCell<Vec<Option<Vec<u8>>>> = RefCell::new(vec![None, None, None, None, None]);
+    static ACCEPTORS: RefCell<Vec<Option<TlsAcceptor>>> = RefCell::new(vec![None, None, None, None, None, None]);
+    static CERT_DER: RefCell<Vec<Option<Vec<u8>>>> = RefCell::new(vec![None, None, None, None, None, None]);
 }
 
 fn acceptor(i: usize) -> TlsAcceptor {
@@ -164,6 +164,8 @@ pub struct Server {
     /// raw client frames (is_client_info, bytes), kept when `keep_frames` is set
     pub frames: Vec<(bool, Vec<u8>)>,
     pub keep_frames: bool,
+    /// hostile: this many send-data indications for this (announced, never joined) channel precede the licence
+    pub pre_license_flood: Option<(u16, usize)>,
     pub nla_done_pump: u64,
 }
 
@@ -210,6 +212,7 @@ impl Server {
             nla_final_pump: 0,
             frames: Vec::new(),
             keep_frames: false,
+            pre_license_flood: None,
             nla_done_pump: 0,
         }
     }
@@ -585,6 +588,18 @@ impl Server {
             }
             (Phase::ExpectInfo, ClientMsg::Info { .. }) => {
                 self.info_seen = true;
+                if let Some((chan, n)) = self.pre_license_flood {
+                    let mut one = Wr::new();
+                    one.u8("sdin.header", 0x68).u16be("sdin.initiator", self.p.server_channel.wrapping_sub(1001)).u16be("sdin.channelId", chan).u8("sdin.prio", 0x70).u8("sdin.length", 4).bytes("sdin.data", &[0, 0, 0, 0]);
+                    let frame = build::x224_data(&one).buf;
+                    let mut all = Vec::with_capacity(frame.len() * n);
+                    for _ in 0..n {
+                        all.extend_from_slice(&frame);
+                    }
+                    self.frames_sent += n;
+                    self.ctx.borrow_mut().ev("fault", format!("{} send-data indications for channel {} before the licence", n, chan));
+                    self.queue_raw("flood-for-an-unjoined-channel", all);
+                }
                 let w = build::license(&self.p);
                 self.queue("license", &w);
                 self.phase = Phase::Activation;
